@@ -85,6 +85,7 @@ class Contract:
         self.may_raise_exprs = []
         self.check_frame = True
         self.hooks = {}
+        self.opaque_stmts = []
         self.chooses = {}
         self.exc_classes = []
         self.cuts = []
@@ -167,12 +168,13 @@ class Contract:
         self.hooks[key] = {k: ast.parse(v, mode="eval").body for k, v in updates.items()}
         return self
 
-    def cut(self, stmt_prefix, var, spec, clauses, props=(), top=()):
+    def cut(self, stmt_prefix, var, spec, clauses, props=(), top=(), use=()):
         """Statement contract ("cut"): right after the first statement whose source text starts with stmt_prefix,
         the clauses are proved for the current value of local `var`, which is then replaced by a fresh value
         of type `spec` about which only the clauses are known."""
         self.cuts.append({"key": " ".join(stmt_prefix.split()), "var": var, "spec": spec, "props": tuple(props),
-                          "clauses": [Clause(k, v, top=(k in top)) for k, v in clauses.items()], "fired": False})
+                          "clauses": [Clause(k, v, top=(k in top)) for k, v in clauses.items()], "fired": False,
+                          "use": [ast.parse(u, mode="eval").body for u in use]})
         return self
 
     def callsite(self, suffix, clauses, top=(), props=()):
@@ -187,6 +189,17 @@ class Contract:
         key = ast.unparse(ast.parse(stmt_text).body[0])
         self.chooses.setdefault(key, []).append({"var": var, "pred": ast.parse(pred, mode="eval").body, "when": ast.parse(when, mode="eval").body, "props": tuple(props), "src": pred})
         return self
+
+    def opaque_stmt(self, *prefixes):
+        """Statements (by source prefix) executed as havoc of their assigned targets: their value is not needed by any
+        clause (sound over-approximation; listed as opaque sites)."""
+        self.opaque_stmts.extend(" ".join(p.split()) for p in prefixes)
+        return self
+
+    def lemma_at(self, stmt_prefix, clauses, props=(), use=()):
+        """Intermediate assertion right after a statement: each clause is proved there and then available as a
+        hypothesis for the rest of the function (nothing is havocked)."""
+        return self.cut(stmt_prefix, "lemma", None, clauses, props=props, use=use)
 
     def strings(self, **kw):
         for k, v in kw.items():
